@@ -17,9 +17,9 @@ open DV
 /-- the watchdog as the current source configures it -/
 def cur (R : Nat) : WD := WD.init R Gen.capDwac Gen.dwrDrainsFirst
 
-theorem cur_inv (R : Nat) : WInv (cur R) := by
+theorem cur_inv (R : Nat) : WdInv (cur R) := by
   have h1 : Gen.capDwac = 1 := by decide
-  unfold cur; rw [h1]; exact WInv_init R 1 _ (by omega)
+  unfold cur; rw [h1]; exact WdInv_init R 1 _ (by omega)
 
 theorem run_R : ∀ (es : List WdEv) (a b : WD), a.run es = some b → b.R = a.R := by
   intro es
@@ -38,7 +38,7 @@ theorem run_R : ∀ (es : List WdEv) (a b : WD), a.run es = some b → b.R = a.R
 /-- (i) one `dwr()` call writes at most MaxRetransmits+1 DWRs (all the same message: `makeDWR`
     is called once, before the loop - `C13_gen`) -/
 theorem C13_bound (R : Nat) (es : List WdEv) (s : WD) (h : (cur R).run es = some s) : s.cycleDwrs ≤ R + 1 := by
-  have inv := WInv_run es _ s (cur_inv R) h
+  have inv := WdInv_run es _ s (cur_inv R) h
   have := inv.le
   rw [run_R es _ s h] at this
   exact this
@@ -50,7 +50,7 @@ theorem C13_bound (R : Nat) (es : List WdEv) (s : WD) (h : (cur R).run es = some
 theorem C13_ack_not_lost (R : Nat) (es : List WdEv) (s : WD) (h : (cur R).run es = some s) (i : Nat)
     (hp : s.pc = .selecting i) (ha : s.answered = true) :
     (s.step .ack).isSome = true ∧ s.step .rtTimer = none := by
-  have inv := WInv_run es _ s (cur_inv R) h
+  have inv := WdInv_run es _ s (cur_inv R) h
   have hd := inv.ans ha ⟨i, Or.inr hp⟩
   have hpos : s.dwac > 0 := by omega
   simp [WD.step, hp, hpos]
@@ -60,7 +60,7 @@ theorem C13_ack_not_lost (R : Nat) (es : List WdEv) (s : WD) (h : (cur R).run es
     success answer was handled after its first DWR. -/
 theorem C13_responsive (R : Nat) (es : List WdEv) (s : WD) (h : (cur R).run es = some s) (hc : s.closedByWD = true) :
     s.cycleDwrs = R + 1 ∧ s.cycleTimers = R + 1 ∧ s.answeredAtClose = false := by
-  have inv := WInv_run es _ s (cur_inv R) h
+  have inv := WdInv_run es _ s (cur_inv R) h
   have := inv.closed hc
   rw [run_R es _ s h] at this
   exact ⟨this.1, this.2.1, this.2.2.1⟩
